@@ -511,6 +511,8 @@ void Race::region_free(const void *addr) {
 	if (!R.on || !S || !addr) return;
 	auto it = R.regions.find((uintptr_t)addr);
 	if (it == R.regions.end()) return;
+	// releasing a block conflicts with every access to it that is not ordered before the release
+	if (S->cur >= 0) access(addr, it->second.hi - it->second.lo, true, "free");
 	for (uintptr_t a = it->second.lo; a < it->second.hi; a++) R.shadow.erase(a);
 	R.regions.erase(it);
 }
@@ -671,6 +673,9 @@ int __wrap_pthread_mutex_unlock(pthread_mutex_t *m) {
 	mm.vc = me.vc;
 	vc_tick(me);
 	mm.owner = -1;
+	// a second scheduling point right after the release: threads waiting for this mutex may run before the
+	// code that follows the unlock (otherwise that code would always win against them)
+	sched_point(OP_YIELD);
 	return 0;
 }
 int __wrap_pthread_cond_init(pthread_cond_t *c, const pthread_condattr_t *a) {
